@@ -78,6 +78,7 @@ type c06Config struct {
 	Before    []int  // lengths of ordinary entries logged before the terminal one (they sit in the buffer)
 	Family    string // "" | sibling-hooks | child-hooks | parent-hooks: another member of the logger family is derived with different terminal hooks (and used) first
 	Earlier   int    // crash-level entries (same level, through a sibling whose terminal hooks only record) logged earlier through the same core
+	Root      string // "" (zap.New(core, ...)) | NewNop+WrapCore | New(nil)+WrapCore: equivalent ways to arrive at the same logger
 	SyncErr   string // with Fault syncerr: the error value Sync reports: "" (generic) | EINVAL | ENOTTY | PathError
 	Deriv     string // "" | with | withlazy | named | hooks | hooks+withlazy | hooks+with | withlazy+hooks: how the logger under test is derived from the one built on the core
 }
@@ -284,6 +285,15 @@ func (h *recHook) OnWrite(ce *zapcore.CheckedEntry, _ []zapcore.Field) {
 	}
 }
 
+// c06ZeroValueHook forwards to the recording hook of the current case (cases are serialised by c06Mu).
+type c06ZeroValueHook struct{}
+
+var c06ZeroHookTarget *recHook
+
+func (c06ZeroValueHook) OnWrite(ce *zapcore.CheckedEntry, fs []zapcore.Field) {
+	c06ZeroHookTarget.OnWrite(ce, fs)
+}
+
 var c06Mu sync.Mutex // exit stub and globals are process-wide
 
 func propC06(t *rapid.T) {
@@ -291,7 +301,7 @@ func propC06(t *rapid.T) {
 		Core:      rapid.SampledFrom([]string{"json", "tee", "teeobs", "nop", "sampleout", "increase"}).Draw(t, "core"),
 		Threshold: rapid.IntRange(-1, 7).Draw(t, "threshold"),
 		Dev:       rapid.Bool().Draw(t, "development"),
-		Hook:      rapid.SampledFrom([]string{"default", "nil", "noop", "goexit", "custom"}).Draw(t, "hook"),
+		Hook:      rapid.SampledFrom([]string{"default", "nil", "noop", "goexit", "custom", "custom-value"}).Draw(t, "hook"),
 		Level:     rapid.SampledFrom([]string{"dpanic", "panic", "fatal"}).Draw(t, "level"),
 	}
 	names := c06FrontNames(cfg.Level)
@@ -311,6 +321,7 @@ func propC06(t *rapid.T) {
 	if cfg.Fault == "syncerr" {
 		cfg.SyncErr = rapid.SampledFrom([]string{"", "EINVAL", "ENOTTY", "PathError"}).Draw(t, "syncErrValue")
 	}
+	cfg.Root = rapid.SampledFrom([]string{"", "", "NewNop+WrapCore", "New(nil)+WrapCore"}).Draw(t, "root")
 	cfg.Family = rapid.SampledFrom([]string{"", "", "sibling-hooks", "child-hooks", "parent-hooks"}).Draw(t, "family")
 	cfg.Deriv = rapid.SampledFrom([]string{"", "", "with", "withlazy", "named", "hooks", "hooks+withlazy", "hooks+with", "withlazy+hooks"}).Draw(t, "derivation")
 	c06RunInProcess(t, cfg)
@@ -367,8 +378,21 @@ func c06RunInProcess(t interface{ Fatalf(string, ...any) }, cfg c06Config) {
 		opts = append(opts, zap.WithFatalHook(zapcore.WriteThenGoexit), zap.WithPanicHook(zapcore.WriteThenGoexit))
 	case "custom":
 		opts = append(opts, zap.WithFatalHook(hook), zap.WithPanicHook(hook))
+	case "custom-value":
+		// a hook implemented on a VALUE type whose value is the zero value of that type (an empty struct with a
+		// value receiver): as much a hook as a pointer to a struct
+		c06ZeroHookTarget = hook
+		opts = append(opts, zap.WithFatalHook(c06ZeroValueHook{}), zap.WithPanicHook(c06ZeroValueHook{}))
 	}
-	lg := zap.New(core, opts...)
+	var lg *zap.Logger
+	switch cfg.Root {
+	case "NewNop+WrapCore":
+		lg = zap.NewNop().WithOptions(append([]zap.Option{zap.WrapCore(func(zapcore.Core) zapcore.Core { return core })}, opts...)...)
+	case "New(nil)+WrapCore":
+		lg = zap.New(nil).WithOptions(append([]zap.Option{zap.WrapCore(func(zapcore.Core) zapcore.Core { return core })}, opts...)...)
+	default:
+		lg = zap.New(core, opts...)
+	}
 	// other members of the logger family get DIFFERENT terminal hooks (and are used): the logger under test keeps its own
 	otherHook := &recHook{under: under}
 	switch cfg.Family {
@@ -456,7 +480,7 @@ func c06RunInProcess(t interface{ Fatalf(string, ...any) }, cfg c06Config) {
 	kind := "none"
 	if wantTerm {
 		switch cfg.Hook {
-		case "custom":
+		case "custom", "custom-value":
 			kind = "custom"
 		case "goexit":
 			kind = "goexit"
